@@ -191,6 +191,9 @@ func setFloatFromBigInt(value *big.Int, dst reflect.Value) {
 		PanicErrorConverting(value, dst.Type(), err)
 	}
 	dst.SetFloat(v)
+	if dst.Float() != v {
+		PanicCannotConvert(value, dst.Type())
+	}
 }
 
 func setFloatFromBigFloat(value *big.Float, dst reflect.Value) {
